@@ -9,7 +9,9 @@ REACH_TARGETS = [('EKF.process_jacobian', 'formak.python:ExtendedKalmanFilter.pr
 LEVEL = "exploration"
 RULE = ("random filter definitions biased to rectangular shapes (1-5 states, 0-3 controls, 0-3 "
         "calibrations, 1-3 sensors x 1-4 readings, calibration inside sensor expressions) x named "
-        "points; each entry of process/control/sensor Jacobian compared by (row name, column name) "
+        "points (a quarter linear-in-state programs, repeated dt, 6-10 state programs, symbols with assumptions, "
+        "a sibling filter with the same sensor names built afterwards, consecutive calls at inputs that hash "
+        "alike); each entry of process/control/sensor Jacobian compared by (row name, column name) "
         "with the independently differentiated expression; non-trivial = at least one sensor with "
         "readings != states and readings != states+calibrations, or controls != states; distinct = "
         "sha256 of the canonical definition")
